@@ -1,12 +1,15 @@
 #!/bin/bash
-# seedrun.sh <seed dir name, e.g. C05a> <check ids...>: apply the seeded change to /repo, run the checks, undo.
+# seedrun.sh <seed dir name, e.g. C05a> <check ids...>: apply the seeded change to the repository under
+# check (/repo, or $VERIF_REPO / $VP_RUN_REPO for a snapshot), run the checks, undo.
 S=$1; shift
-cd /verif
-git -C /repo diff --quiet || { echo "/repo is dirty"; exit 2; }
-git -C /repo apply /verif/seeded/$S/patch.diff || exit 2
-trap "git -C /repo checkout -- . ; git -C /repo clean -fdq" EXIT INT TERM
+cd "$(dirname "$0")/.."
+R=${VERIF_REPO:-${VP_RUN_REPO:-/repo}}
+export VERIF_REPO=$R
+git -C $R diff --quiet || { echo "$R is dirty"; exit 2; }
+git -C $R apply $PWD/seeded/$S/patch.diff || { echo "[$S] patch does not apply"; exit 2; }
+trap "git -C $R checkout -- . ; git -C $R clean -fdq" EXIT INT TERM
 for c in "$@"; do
   out=$(./check $c 2>&1); rc=$?
   echo "[$S] check $c rc=$rc $(echo "$out" | grep -c '^VIOLATION') violation line(s): $(echo "$out" | grep '^VIOLATION' | head -1)"
 done
-git -C /repo checkout -- . ; git -C /repo clean -fdq 2>/dev/null
+git -C $R checkout -- . ; git -C $R clean -fdq 2>/dev/null
